@@ -46,9 +46,7 @@ func TestGenRenderParse(t *testing.T) {
 		} else {
 			lay = RandomLayout(r.Derive(3))
 		}
-		w := newRenderer(lay)
-		w.document(doc)
-		text := w.finish()
+		text, info := RenderInfo(doc, lay)
 
 		// determinism
 		if seed%50 == 0 {
@@ -69,7 +67,7 @@ func TestGenRenderParse(t *testing.T) {
 		if t.Failed() {
 			t.Fatalf("seed %d text:\n%s", seed, text)
 		}
-		if w.d6 {
+		if info.NameAfterMultiByteIgnored {
 			// the library mis-lexes a NAME after a multi-byte ignored run (D6);
 			// only crash-freedom can be asked
 			nD6++
@@ -585,11 +583,12 @@ func (m *matcher) value(path string, n nast.Node, a ast.Value) {
 				raw := strings.ReplaceAll(src[3:len(src)-3], `\"""`, `"""`)
 				if BlockStringValue(raw) == v.Value {
 					// the renderer is right by the specification; the library's
-					// blockStringValue deviates. Counted and reported, not a
-					// generator failure. The renderer avoids the known deviations,
-					// so this is unexpected: make it visible.
+					// blockStringValue departs from it. Tolerated only inside the
+					// two known input classes of that lexer defect.
 					m.nBlockDev++
-					m.errf("%s: block string %q: specification value %q, library value %q", path, src, v.Value, got)
+					if fl, sb := LibraryBlockDeviation(raw); !fl && !sb {
+						m.errf("%s: block string %q: specification value %q, library value %q (outside the known deviation classes)", path, src, v.Value, got)
+					}
 					return
 				}
 			}
